@@ -227,7 +227,6 @@ class Gen:
             p = self.pick_new(env)
             self.feat.add("closure")
             body = self.nexpr({**env, "nums": env["nums"] + [p]})
-            env["all"].discard(p) if False else None
             env["fns"].append(nm)
             if r.random() < 0.5:
                 return "%sconst %s = (%s) => %s;" % (ind, nm, p, body)
@@ -246,7 +245,7 @@ class Gen:
             nm = self.pick_new(env)
             env["strs"].append(nm)
             self.feat.add("string")
-            return "%sconst %s = %s;" % (ind, nm, r.choice(["'it''s'.replace(\"'\", '')", "\"a // b\"", "'/* c */'", "'a\\'b'", "\"x\\\\\"", "'count value  row'", "\"`t`\""]))
+            return "%sconst %s = %s;" % (ind, nm, r.choice(["'its'.replace(\"t\", '')", "\"a // b\"", "'/* c */'", "'a\\'b'", "\"x\\\\\"", "'count value  row'", "\"`t`\""]))
         if k == 13 and env["strs"]:
             nm = self.pick_new(env)
             self.feat.add("regex")
